@@ -80,7 +80,11 @@ theorem Errs.cacheRead (idx : Nat) : Errs (cacheRead idx) := by
 theorem Errs.writeBack : Errs writeBack := by
   intro s; unfold Model.writeBack; split
   · exact ResEng.panic _
-  · exact Errs.devWrite _ s
+  · next idx _ =>
+    have h := Errs.devWrite idx s
+    split
+    · exact ResEng.ok _
+    · next r s' _ heq => rw [heq] at h; exact h
 
 theorem Errs.writeBackWithDuplicate (dup : Nat) : Errs (writeBackWithDuplicate dup) := by
   intro s; unfold Model.writeBackWithDuplicate; split
@@ -88,7 +92,11 @@ theorem Errs.writeBackWithDuplicate (dup : Nat) : Errs (writeBackWithDuplicate d
   · next idx _ =>
     have h := Errs.devWrite idx s
     split
-    · exact Errs.devWrite _ _
+    · next s' _ =>
+      have h2 := Errs.devWrite dup s'
+      split
+      · exact ResEng.ok _
+      · next r s'' _ heq => rw [heq] at h2; exact h2
     · next r s' _ heq => rw [heq] at h; exact h
 
 theorem resEng_decodeNext (ft : FatType) (raw : Nat) : ResEng (decodeNext ft raw) := by
